@@ -213,6 +213,9 @@ def _callbacks(tree):
     empty = [s for s in gs if s.startswith('Error: I tried')]
     if len(empty) != 1:
         raise ExtractionError('_makeReply: empty-message text not found')
+    errp = [s for s in gs if s == 'Error: ']
+    if len(errp) != 1:
+        raise ExtractionError("_makeReply: 'Error: ' prefix not found")
     ctcp = None
     for n in ast.walk(g):
         if isinstance(n, ast.Call) and isinstance(n.func, ast.Attribute) and n.func.attr == 'strip' and len(n.args) == 1:
@@ -220,7 +223,7 @@ def _callbacks(tree):
     if ctcp is None or len(ctcp) != 1:
         raise ExtractionError('_makeReply: s.strip(<char>) not found')
     return dict(mores=mores, probe=probe_t[0], max_line=max_line, tab=tab, probe_payload=probe_payload,
-                count=count_t[0], join=join_t[0], nick=nick_t[0], empty=empty[0], ctcp=ctcp)
+                count=count_t[0], join=join_t[0], nick=nick_t[0], empty=empty[0], ctcp=ctcp, errp=errp[0])
 
 
 def _command(tree, fname):
@@ -262,6 +265,73 @@ def _strip(tree):
     return out
 
 
+def _po_entries(path):
+    """(msgid, msgstr) pairs of a .po file, read the way supybot.i18n.parse reads them"""
+    out = []
+    key = None
+    cur = None            # 'id' / 'str'
+    mid = mstr = ''
+
+    def flush():
+        if mid != '' or key is not None:
+            out.append((mid, mstr if mstr != '' else mid))
+    for raw in open(path, encoding='utf-8'):
+        line = raw.rstrip('\n')
+        if line.startswith('msgid "'):
+            if cur == 'str':
+                flush()
+            mid = line[len('msgid "'):-1]; mstr = ''; cur = 'id'; key = True
+        elif line.startswith('msgstr "'):
+            mstr = line[len('msgstr "'):-1]; cur = 'str'
+        elif line.startswith('"') and line.endswith('"') and cur == 'id':
+            mid += line[1:-1]
+        elif line.startswith('"') and line.endswith('"') and cur == 'str':
+            mstr += line[1:-1]
+        else:
+            if cur == 'str':
+                flush(); cur = None; key = None; mid = mstr = ''
+    if cur == 'str':
+        flush()
+    return out
+
+
+def _po_normalize(s, remove_newline):
+    """supybot.i18n.normalize"""
+    import re
+    s = s.replace('\\n\\n', '\n\n').replace('\\n', ' ').replace('\\"', '"')
+    if s:
+        st = s[0] in ' \n\t\r'; en = s[-1] in ' \n\t\r'
+        if remove_newline:
+            s = ' '.join(filter(bool, re.split('[\r\n]+', s)))
+        s = ' '.join(filter(bool, s.split('\t')))
+        s = ' '.join(filter(bool, s.split(' ')))
+        if st: s = ' ' + s
+        if en: s += ' '
+    return s.strip('\n').strip('\t')
+
+
+def _locales(msgids):
+    """translations of `msgids` in every shipped core locale: {lang: [text, ...]} (untranslated = the msgid)"""
+    import os
+    from vlib import REPO
+    d = os.path.join(REPO, 'locales')
+    try:
+        files = sorted(f for f in os.listdir(d) if f.endswith('.po'))
+    except OSError as e:
+        raise ExtractionError('locales/: %s' % e)
+    if not files:
+        raise ExtractionError('locales/: no .po file')
+    out = {}
+    for f in files:
+        table = {}
+        for (mid, mstr) in _po_entries(os.path.join(d, f)):
+            t = _po_normalize(mstr, False)
+            if t:
+                table[_po_normalize(mid, True)] = t
+        out[f[:-3]] = [table.get(_po_normalize(m, True), m) for m in msgids]
+    return out
+
+
 @extractor('Reply')
 def gen_reply():
     tries = _split_bytes(parse('src/utils/str.py'))
@@ -280,6 +350,15 @@ def gen_reply():
         raise ExtractionError('strip* and FormatParser.parse disagree on a control character')
     cb = _callbacks(parse('src/callbacks.py'))
     im = parse('src/ircmsgs.py')
+    act = [x for x in _strings(find_func(im, 'action')) if '%s' in x and 'ACTION' in x]
+    if len(act) != 1 or act[0].count('%s') != 1:
+        raise ExtractionError('ircmsgs.action: CTCP ACTION template not found')
+    act_pre, act_suf = act[0].split('%s')
+    from vlib.extractlib import find_assign as _fa, literal as _lit
+    irc_max = _lit(_fa(parse('src/irclib.py'), 'MAX_LINE_SIZE'), 'MAX_LINE_SIZE')
+    if not isinstance(irc_max, int):
+        raise ExtractionError('irclib.MAX_LINE_SIZE is not an int')
+    loc = _locales([sorted(set(cb['mores']))[0], sorted(set(cb['mores']))[1], cb['empty'], cb['errp']])
     body = 'import LimnoriaModel.Py.Basic\nnamespace Gen\n\n'
     def nat(name, v, doc):
         return '/-- %s -/\ndef %s : Nat := %d\n' % (doc, name, v)
@@ -314,5 +393,12 @@ def gen_reply():
     body += ch('ctcpChar', cb['ctcp'], "_makeReply: `s.strip('\\x01')`")
     body += st('privmsgCmd', _command(im, 'privmsg'), 'ircmsgs.privmsg')
     body += st('noticeCmd', _command(im, 'notice'), 'ircmsgs.notice')
+    body += nat('ircMaxLine', irc_max, 'irclib.MAX_LINE_SIZE (Irc._truncateMsg)')
+    body += st('errorPrefix', cb['errp'], "_makeReply: `_('Error: ') + s`")
+    body += st('actionPrefix', act_pre, 'ircmsgs.action')
+    body += st('actionSuffix', act_suf, 'ircmsgs.action')
+    body += ('/-- locales/*.po: (language, more message, more messages, empty-message error, error prefix) -/\n'
+             'def localeTexts : List (Py.Str × Py.Str × Py.Str × Py.Str × Py.Str) :=\n  [' +
+             ',\n   '.join('(%s, %s, %s, %s, %s)' % ((lstr(k),) + tuple(lstr(x) for x in v)) for k, v in sorted(loc.items())) + ']\n')
     body += '\nend Gen\n'
     write_if_changed('Reply.lean', body, 'src/{utils/str,ircutils,callbacks,ircmsgs}.py')
